@@ -61,6 +61,21 @@ def run(ctx):
                     ss = [gen.series_nd(crng, m, nd, "dyadic") for m in lens]
                 else:
                     ss = [gen.series(crng, m, "dyadic") for m in lens]
+                    if equal and n0 >= 3 and crng.random() < 0.3:
+                        # near-copies of one series that differ mainly in their first / last samples: relaxed ends make
+                        # them close although every bound computed on the whole series is large
+                        base_ = gen.series(crng, n0, "dyadic")
+                        ss = []
+                        for _m in lens:
+                            t_ = list(base_)
+                            if crng.random() < 0.7:
+                                t_[0] += crng.choice([-8.0, 6.0, 9.5])
+                            if crng.random() < 0.5:
+                                t_[-1] += crng.choice([-7.0, 5.0])
+                            if crng.random() < 0.3:
+                                t_[crng.randrange(n0)] += 0.25
+                            ss.append(t_)
+                        ctx.count("collections_with_spiky_ends")
                 kw = gen.rand_settings(crng, min(lens), min(lens), with_mld=False)
                 kw.pop("psi", None)
                 x = crng.random()
@@ -86,6 +101,16 @@ def run(ctx):
                         with monitors.quiet():
                             arrs = [np.array(s) for s in ss]
                             table = [[float(pyd(arrs[a], arrs[b], **kwp)) for b in range(n)] for a in range(n)]
+                        if crng.random() < 0.25 and "max_step" not in kw:
+                            # a threshold is one more DTW setting: entries above it are inf, all others unchanged
+                            fin_ = sorted({v for row in table for v in row if v not in (0.0, inf)})
+                            if len(fin_) >= 2:
+                                k_ = crng.randrange(len(fin_) - 1)
+                                if fin_[k_ + 1] - fin_[k_] > 1e-3 * fin_[k_ + 1]:
+                                    m_ = 0.5 * (fin_[k_] + fin_[k_ + 1])
+                                    kw["max_dist"] = m_
+                                    table = [[(v if v <= m_ else inf) for v in row] for row in table]
+                                    ctx.count("collections_with_max_dist")
                     check_block(ctx, np, dtw, dtw_ndim, dtw_cc, cont, nd, ss, kw, block, table)
 
 
